@@ -264,8 +264,8 @@ func runCheck(id, tier string, seed int, writeEvidence bool) (int, []violation) 
 				key := re.File + "/" + re.Run
 				r, done := rcache[key]
 				if !done {
-					if len(rcache) >= maxReplayRuns {
-						continue
+					if len(rcache) >= maxReplayRuns || os.Getenv("GOVC_NO_REPLAY") != "" {
+						continue // (GOVC_NO_REPLAY: regression runs of the seed corpus skip the replay tests)
 					}
 					out, failed, cmd := runReplay(re)
 					r = rres{out, cmd, failed}
